@@ -383,6 +383,39 @@ impl Prop for C11 {
             .boxed();
         vec![Part { name: "case".into(), strategy: s, cases: tier.pick(200_000, 4_000_000) }]
     }
+    fn enumerations(&self, tier: Tier) -> Vec<(String, String, Box<dyn Iterator<Item = Case11> + Send>)> {
+        // every small pattern over a letter in both cases, another letter, a digit and two classes, with and without i,
+        // on every short input over the same characters; input and pattern swapped nowhere / everywhere / alternately
+        let cfg = crate::enumerate::EnumCfg {
+            atoms: vec![
+                Node::Lit('a'),
+                Node::Lit('A'),
+                Node::Lit('b'),
+                Node::Lit('1'),
+                Node::Class(ClassExpr { neg: false, items: vec![Item::Char('a'), Item::Char('1')], sub: None }),
+                Node::Class(ClassExpr { neg: true, items: vec![Item::Char('A')], sub: None }),
+                Node::Class(ClassExpr { neg: false, items: vec![Item::Range('a', 'b')], sub: None }),
+            ],
+            quants: vec![(0, Some(1), true), (0, None, true), (1, None, true), (2, Some(2), true), (0, None, false)],
+            cap: true,
+            noncap: false,
+            alt: true,
+            backref: true,
+        };
+        let size = tier.pick(4, 5);
+        let nodes = crate::enumerate::up_to(&cfg, size);
+        let inputs = crate::enumerate::inputs(&['a', 'A', 'b', '1'], 3);
+        let scope = format!("all {} ASTs of size <= {} over atoms {{a, A, b, 1, [a1], [^A], [a-b], \\N}} x quantifiers {{?,*,+,{{2}},*?}} with groups and alternation x flags {{i, ''}} x all {} inputs over {{a,A,b,1}} of length <= 3 x 3 swap masks", nodes.len(), size, inputs.len());
+        let n_in = inputs.len();
+        let it = nodes.into_iter().flat_map(move |node| {
+            let inputs = inputs.clone();
+            ["i", ""].into_iter().flat_map(move |f| {
+                let (node, inputs) = (node.clone(), inputs.clone());
+                [0u32, u32::MAX, 0x5555_5555].into_iter().map(move |mask| Case11 { ast: AstCase { node: node.clone(), flags: f.to_string(), inputs: Inputs::Lit(inputs.clone()) }, swap_in: vec![mask; n_in], swap_pat: mask })
+            })
+        });
+        vec![("exhaustive-small".into(), scope, Box::new(it))]
+    }
     fn check(&self, case: &Case11, ctx: &mut Ctx) -> Verdict {
         check_case(case, ctx)
     }
